@@ -204,6 +204,8 @@ def make_model(kind, tag_idx, train_fdr, max_iter, seed, override=False, **kw):
     if kind == "olda":
         est = RecordingLDA(tag_idx=tag_idx, order_frac=0.8, **kw)
         return mokapot.Model(est, scaler="as-is", train_fdr=train_fdr, max_iter=max_iter, override=override, rng=seed)
+    if kind == "default":
+        return None  # brew(model=None): mokapot builds its own PercolatorModel
     if kind == "blda":
         est = RecordingBothLDA(tag_idx=tag_idx, **kw)
         return mokapot.Model(est, scaler="as-is", train_fdr=train_fdr, max_iter=max_iter, override=override, rng=seed)
